@@ -8,6 +8,7 @@ import (
 	"os"
 	"path/filepath"
 	"sort"
+	"strconv"
 	"strings"
 )
 
@@ -54,6 +55,7 @@ type Contract struct {
 	Pure         bool
 	Trusted      bool
 	TrustedPosts bool
+	NoCalls      []*Clause // nocalls[tags] label: "prefix" - the function itself never calls a function whose full name starts with prefix
 	NoBody       bool
 	Implements   []string
 	Defines      []*Define
@@ -448,6 +450,19 @@ func (C *Contracts) loadContractFile(path string, pkgPath string, isGo bool) {
 		case "trusted":
 			if cur != nil {
 				cur.Trusted = true
+			}
+		case "nocalls":
+			// nocalls[tags] label: "(reflect.Value).Set"   (a string literal: prefix of the callee's full name)
+			if cur != nil {
+				cl, err := parseClause(kw, rest, path, ln)
+				if err != nil {
+					errf("%v", err)
+				} else if lit, ok := cl.Expr.(*ast.BasicLit); ok {
+					cl.Src, _ = strconv.Unquote(lit.Value)
+					cur.NoCalls = append(cur.NoCalls, cl)
+				} else {
+					errf("nocalls needs a string literal")
+				}
 			}
 		case "trusted_posts":
 			// the postconditions are assumed (listed as an assumption); the body is still executed for the
